@@ -237,6 +237,23 @@ func judgeAccepted(entry string, raw []byte, chainID int64, addr *ethtypes.Addre
 	return vs
 }
 
+func resultSnapshot(addr *ethtypes.Address0xHex, res *ethsigner.TransactionWithOriginalPayload) string {
+	if addr == nil || res == nil || res.Transaction == nil {
+		return "nil"
+	}
+	f := func(h *ethtypes.HexInteger) string {
+		if h == nil {
+			return "nil"
+		}
+		return h.BigInt().String()
+	}
+	to := "nil"
+	if res.To != nil {
+		to = hex.EncodeToString(res.To[:])
+	}
+	return fmt.Sprintf("addr=%x n=%s gp=%s tip=%s cap=%s gas=%s val=%s to=%s data=%x payload=%x", addr[:], f(res.Nonce), f(res.GasPrice), f(res.MaxPriorityFeePerGas), f(res.MaxFeePerGas), f(res.GasLimit), f(res.Value), to, []byte(res.Data), res.Payload)
+}
+
 func judgeRaw(raw []byte, chainID int64) (vs []evid.Violation, out outcome) {
 	ctx := context.Background()
 	type rec func(context.Context, ethtypes.HexBytes0xPrefix, int64) (*ethtypes.Address0xHex, *ethsigner.TransactionWithOriginalPayload, error)
@@ -276,6 +293,14 @@ func judgeRaw(raw []byte, chainID int64) (vs []evid.Violation, out outcome) {
 		}
 		out.accepted = true
 		vs = append(vs, judgeAccepted(e.name, raw, chainID, addr, res)...)
+		// the result must not alias the caller's buffer: reuse the buffer, the result stays what it was
+		before := resultSnapshot(addr, res)
+		for i := range cp {
+			cp[i] ^= 0x5a
+		}
+		if after := resultSnapshot(addr, res); after != before {
+			vs = append(vs, evid.V("result-independent-of-input-buffer", "%s: the returned fields/payload changed when the caller reused the input buffer:\n before %s\n after  %s", e.name, before, after))
+		}
 	}
 	// signature-less decode of an EIP-1559 payload
 	var tx *ethsigner.Transaction
@@ -297,6 +322,16 @@ func judgeRaw(raw []byte, chainID int64) (vs []evid.Violation, out outcome) {
 		}
 	}
 	return vs, out
+}
+
+// judgePure is judge without the classification side channel (safe for concurrent use).
+func judgePure(c Case) []evid.Violation {
+	raw, err := hex.DecodeString(c.Raw)
+	if err != nil {
+		return []evid.Violation{evid.V("harness", "bad hex")}
+	}
+	vs, _ := judgeRaw(raw, c.ChainID)
+	return vs
 }
 
 // lastOutcome is the classification of the most recent judge call (single-threaded use).
@@ -629,6 +664,7 @@ func TestCheck(t *testing.T) {
 	rec.Assume("oracle: ref/rlpref lenient+strict decoders, ref/secp recovery, txmodel V conventions; inputs are signed by the reference signer")
 	rec.Assume("not asserted: rejection of non-canonical RLP/integers, of trailing bytes or extra list elements, of non-empty access lists; which parity a non-specification V stands for")
 	k := evid.NewKind(rec, "raw", judge)
+	cpool := evid.NewPool(rec, "concurrent", judgePure, 48)
 	rec.Corpus(t)
 
 	t.Run("exhaustive<=2B", func(t *testing.T) {
@@ -669,6 +705,7 @@ func TestCheck(t *testing.T) {
 		k.CheckLazy(rt, Case{Raw: hex.EncodeToString(raw), ChainID: supplied}, func() (bool, []string) {
 			out := lastOutcome
 			if out.accepted {
+				cpool.Offer(Case{Raw: hex.EncodeToString(raw), ChainID: supplied})
 				cl = append(cl, "accepted")
 			} else if out.semanticReje {
 				cl = append(cl, "rejected-semantic")
@@ -693,11 +730,14 @@ func TestCheck(t *testing.T) {
 			})
 		}
 	})
+	// accepted transactions recovered from many goroutines at once: verdicts must not depend on concurrent callers
+	cpool.Run(t, 8, 4, 12)
 }
 
 func TestReplay(t *testing.T) {
 	rec := evid.Start("C10", rule)
 	evid.NewKind(rec, "raw", judge)
+	evid.NewPool(rec, "concurrent", judgePure, 0)
 	rec.Replay(t)
 }
 
